@@ -3,6 +3,8 @@ package main
 import (
 	"fmt"
 	"math/rand"
+	"os"
+	"path/filepath"
 	"sort"
 	"strings"
 	"testing"
@@ -41,7 +43,22 @@ func c01AgentHistory(R *vr.Result, rng *rand.Rand, id, mode string) {
 	sets := ref.CheapSets(rng, 3)
 	planted := []ovlUser{{Name: "root", Pw: "rootpw", Admin: true, Set: 2}, {Name: "alice", Pw: "alicepw", Set: 3}, {Name: "bob", Pw: "bobpw", Admin: true, Set: 1}}
 	st := ovlMkStore(rng, dir, sets, 1, planted)
-	ag, err := NewStore(st.Cfg, mode, "", "", "")
+	hooksDir := ""
+	variant := ""
+	cfgPath := st.Cfg
+	if rng.Intn(2) == 0 {
+		// an agent started in the directory above its store, with a relative base directory and update hooks
+		if err := os.Chdir(dir); err == nil {
+			cfgPath = filepath.Join(dir, "relative.yml")
+			os.WriteFile(cfgPath, []byte(ref.YAML("base", 1, sets)), 0600) //nolint:errcheck
+			hooksDir = filepath.Join(dir, "hooks")
+			os.Mkdir(hooksDir, 0700)                                                              //nolint:errcheck
+			os.WriteFile(filepath.Join(hooksDir, "sync.sh"), []byte("#!/bin/sh\nexit 0\n"), 0700) //nolint:errcheck
+			variant = "+relative-basedir+hooks"
+			R.Count("histories_with_relative_basedir_and_hooks", 1)
+		}
+	}
+	ag, err := NewStore(cfgPath, mode, "", "", hooksDir)
 	if err != nil {
 		R.Fatal = err.Error()
 		return
@@ -55,7 +72,7 @@ func c01AgentHistory(R *vr.Result, rng *rand.Rand, id, mode string) {
 	pool := []string{"root", "alice", "bob", "carol", "dave"}
 	var hist []string
 	nUpd, nSet, nRem := 0, 0, 0
-	viol := func(sig, what string) { R.Violate(sig, what, id, map[string]any{"mode": mode, "history": hist}) }
+	viol := func(sig, what string) { R.Violate(sig, what, id, map[string]any{"mode": mode + variant, "history": hist}) }
 	for i := 0; i < vr.Pick(25, 40); i++ {
 		u := pool[rng.Intn(len(pool))]
 		m := model[u]
